@@ -450,6 +450,7 @@ class World:
 
 _rootno = iter(range(10**9))
 INIT_DIRS = {"/usr/share/info": ["a.info"], "/opt/info": ["bad.info"], "/opt/lib": []}
+INDEXED_DIRS = {"/usr/share/info": ["a.info", "dir"], "/opt/info": ["b.info", "dir", "dir.old"], "/opt/lib": []}
 
 
 def run_history(world, tid, bin_, hist, events, init_dirs=None, init_env=("f1",)):
@@ -685,7 +686,7 @@ def run(ck):
         for rec in d.get("files", []):
             uni.add_file(rec)
         if d["kind"] == "history":
-            run_history(world, 1, d["bin"], d["history"], events, init_env=d["init_env"])
+            run_history(world, 1, d["bin"], d["history"], events, init_env=d["init_env"], init_dirs=d.get("init_dirs"))
         else:
             pure_events(uni, 1, d["envd"], d["extras"], d["probes"], events, ck)
         judge(ck, uni, events, "Trace:replay", {1: d})
@@ -769,9 +770,10 @@ def run(ck):
         bin_ = r_.random() < 0.85
         init_env = ["f1"] if r_.random() < 0.7 else ["f2"]
         hist = sanitize(uni.files, random_history(r_, r_.randint(8, ck.pick(24, 40)), ["f1", "f2", "f2", "f3"], list(INIT_DIRS), names), init_env, INIT_DIRS)
+        init_dirs = INIT_DIRS if r_.random() < 0.5 else INDEXED_DIRS
         tid = batch.tid()
-        run_history(world, tid, bin_, hist, batch.events, init_env=init_env)
-        batch.index[tid] = dict(kind="history", bin=bin_, history=hist, init_env=init_env, files=[])
+        run_history(world, tid, bin_, hist, batch.events, init_env=init_env, init_dirs=init_dirs)
+        batch.index[tid] = dict(kind="history", bin=bin_, history=hist, init_env=init_env, init_dirs=init_dirs, files=[])
         ck.count()
         if any(a["ev"] == "hook" for a in hist):
             ck.nontriv(("h", json.dumps(hist)))
